@@ -200,7 +200,7 @@ func (e *Variable) Assign(newVal reflect.Value, dataContext IDataContext, memory
 		if e.Variable.ValueNode.IsArray() {
 			err := e.Variable.ValueNode.SetArrayValueAt(int(e.ArrayMapSelector.Value.Int()), newVal)
 			if err == nil {
-				memory.ResetVariable(e)
+				memory.ResetElement(e)
 			}
 
 			return err
@@ -208,7 +208,7 @@ func (e *Variable) Assign(newVal reflect.Value, dataContext IDataContext, memory
 		if e.Variable.ValueNode.IsMap() {
 			err := e.Variable.ValueNode.SetMapValueAt(e.ArrayMapSelector.Value, newVal)
 			if err == nil {
-				memory.ResetVariable(e)
+				memory.ResetElement(e)
 			}
 
 			return err
